@@ -643,4 +643,4 @@ def _obligations():
 
 
 def obligations():
-    return _obligations() + [labels_obligation("C02"), selectors_obligation("C02"), effects_obligation("C02")]
+    return _obligations() + [labels_obligation("C02"), selectors_obligation("C02"), effects_obligation("C02"), plumbing_obligation("C02")]
